@@ -196,6 +196,15 @@ var ttCallForms = []ttCallForm{
 	{name: "selfcall-arg", space: true, mk: func(d ttDefKind, h, r string) string {
 		return "(" + h + " (- n 1) (" + h + " 0 " + ttStep(d) + "))"
 	}},
+	// an argument that is a dot path into a local of a scope the optimised call pops
+	{name: "dotpath-arg", space: true, only: func(d ttDefKind) bool { return !d.variadic && !d.lazy },
+		mk: func(d ttDefKind, h, r string) string {
+			return "(let [hx (hash a: " + ttStep(d) + ")] (" + h + " (- n 1) hx.a))"
+		}},
+	{name: "dotpath-arg-first", space: true, only: func(d ttDefKind) bool { return !d.variadic && !d.lazy },
+		mk: func(d ttDefKind, h, r string) string {
+			return "(newScope (def hx (hash a: (- n 1) b: (hash c: " + ttStep(d) + "))) (" + h + " hx.a hx.b.c))"
+		}},
 }
 
 func ttCF(name string) ttCallForm {
